@@ -1522,7 +1522,7 @@ static int run_cc608_local(struct vf_rng *r)
 {
 	struct gen g[2];
 	static const char alnum[] = "ABCDEFGHIJKLMNOPQRSTUVWXYZabcdefghijklmnopqrstuvwxyz0123456789";
-	static const char *const kinds[] = { "put", "der", "bs", "to", "edm", "eoc", "ru" };
+	static const char *const kinds[] = { "put", "der", "bs", "to", "edm", "eoc", "ru", "bsin" };
 	char exp[M_COLS + 1], exp_up[3][M_COLS + 1], text[40];
 	int f, ch2, p, row, ind, ul, n, k, kind, i, c, plen, nbs = 0, tok = 0, der_col = 0, ru_a = 0, ru_b = 0, n_up = 0;
 	struct snap *s;
@@ -1538,7 +1538,7 @@ static int run_cc608_local(struct vf_rng *r)
 	/* the suffix */
 	f = (int)vf_below(r, 2); ch2 = (int)vf_below(r, 2); p = f * 2 + ch2;
 	row = vf_range(r, 1, 15); ind = (int)vf_below(r, 8) * 4; ul = (int)vf_below(r, 2);
-	kind = (int)vf_below(r, 7);
+	kind = (int)vf_below(r, 8);
 	if (kind == 6 && row < 4) row = vf_range(r, 4, 15);   /* a base row with room for four rows */
 	q_flush_pend(0); q_flush_pend(1);
 	while (qn[f] < qn[1 - f]) q_push(f, 0, 0, 0);       /* the suffix comes after everything on the other field, too */
@@ -1553,6 +1553,20 @@ static int run_cc608_local(struct vf_rng *r)
 	else CTL(e608_misc(ch2, f, E608_RDC));
 	CTL(e608_misc(ch2, f, E608_EDM));
 	switch (kind) {
+	case 7: /* bsin: the cursor is brought back into the text (PAC + tab offset), BS erases one character there,
+		   (f)(1)(vi); the characters to its right stay */
+		tok = vf_range(r, 1, 3);
+		if (n < tok + 1) n = tok + 1 + (int)vf_below(r, 4);
+		if (ind + n > 32) { ind = 0; }
+		for (i = 0; i < n; i++) text[i] = alnum[vf_below(r, sizeof alnum - 1)];
+		text[n] = 0;
+		CTL(e608_pac(ch2, row, ind, 0, ul));
+		for (i = 0; i < n; i++) q_char(f, text[i]);
+		CTL(e608_pac(ch2, row, ind, 0, ul));
+		CTL(e608_to(ch2, tok));
+		CTL(e608_misc(ch2, f, E608_BS));
+		for (i = 0; i < n; i++) if (i != tok - 1) exp[1 + ind + i] = text[i];
+		break;
 	case 6: { /* ru: depth a, a rows of text, then the smaller depth b */
 		int j, m;
 		ru_a = vf_range(r, 3, 4); ru_b = vf_range(r, 2, ru_a - 1);
@@ -1647,7 +1661,7 @@ static int run_cc608_local(struct vf_rng *r)
 				int want = rr == row - 1 ? exp[c] : (kind == 6 && up >= 1 && up <= n_up) ? exp_up[up - 1][c] : ' ';
 				const char *exprow = rr == row - 1 ? exp : (kind == 6 && up >= 1 && up <= n_up) ? exp_up[up - 1] : "                                  ";
 				if (want != ' ') {
-					if (d->op == VBI_TRANSPARENT_SPACE || d->uc != (unsigned)want) return loc_fail(kind == 2 ? "backspace" : kind == 3 ? "tab-offset" : kind == 6 ? "roll-up-shrink-lost-row" : "text-at-cursor", p, rr, s->pg[p], exprow, f);
+					if (d->op == VBI_TRANSPARENT_SPACE || d->uc != (unsigned)want) return loc_fail(kind == 2 ? "backspace" : kind == 3 ? "tab-offset" : kind == 6 ? "roll-up-shrink-lost-row" : kind == 7 ? "backspace-inside-text" : "text-at-cursor", p, rr, s->pg[p], exprow, f);
 					if (d->fg != VBI_WHITE || !!(d->fl & DF_UL) != ul || (d->fl & (DF_IT | DF_FL | DF_OTHER)))
 						return loc_fail("attributes-of-indent-PAC", p, rr, s->pg[p], exp, f);
 					continue;
